@@ -472,6 +472,29 @@ var signatureTable = map[string]func(a aux) bool{
 	"c02-named-bool-param": func(a aux) bool {
 		return a["site"] == "(*runtime).toValue.func1" && strings.Contains(a["panic"], "using bool as type c02.NamedBool") && strings.Contains(a["sink"], "fNamedBool")
 	},
+
+	// ---- round 7: allocation by a claimed length
+
+	"c02-array-prealloc-by-length": func(a aux) bool {
+		return a["phase"] == "fatal" && a["class"] == "out-of-memory" && hugeInput(a) &&
+			in(a["site"], "builtinArrayJoin", "builtinArrayToLocaleString", "builtinArraySlice", "builtinArraySplice", "builtinArrayMap")
+	},
+
+	"c02-json-prealloc-by-length": func(a aux) bool {
+		return a["phase"] == "fatal" && a["class"] == "out-of-memory" && hugeInput(a) && in(a["site"], "builtinJSONStringify", "builtinJSONStringifyWalk")
+	},
+
+	"c02-slice-param-claimed-length": func(a aux) bool {
+		if !strings.HasPrefix(a["source"], "huge-") || a["site"] != "(*runtime).convertCallParameter" {
+			return false
+		}
+		return (a["phase"] == "fatal" && a["class"] == "out-of-memory") || (a["class"] == "string" && strings.Contains(a["panic"], "reflect.MakeSlice: negative len"))
+	},
+}
+
+// hugeInput: the case is one of the claimed-length groups.
+func hugeInput(a aux) bool {
+	return strings.HasPrefix(a["group"], "huge-length") || strings.HasPrefix(a["source"], "huge-")
 }
 
 // usesU16 reports whether the case involves one of the []uint16-backed string kinds.
